@@ -314,7 +314,12 @@ StepF(c) ==
       [] g.b = "then" -> Ev(Ite(c, g.c, g.t, FailB, cb, rest), "DoIfThen")
       [] g.b = "not"  -> Ev(Ite(c, g.g, FailB, TrueB, cb, rest), "DoNot")
       [] g.b = "commit"  -> Ev([c EXCEPT !.goals = rest, !.cps = SubSeq(c.cps, 1, g.B)], "DoCommit")
-      [] g.b = "collect" -> Ev([c EXCEPT !.goals = rest, !.bags[g.k] = Append(@, Resolve(g.t, c.s))], "DoFindallCollect")
+      [] g.b = "collect" ->
+           \* an instance that is not ground: the property says "instances of T" and does not settle whether
+           \* their variables are the caller's or fresh ones (ISO copies; the code keeps what get_value returns,
+           \* which depends on the direction of variable-variable bindings): unspecified, the scenario is cut
+           IF ~Ground(Resolve(g.t, c.s)) THEN Stop(c, "unspec")
+           ELSE Ev([c EXCEPT !.goals = rest, !.bags[g.k] = Append(@, Resolve(g.t, c.s))], "DoFindallCollect")
       [] g.b = "call" -> Call(c, Walk(g.g, c.s), cb, rest)
 
 ----------------------------------------------------------------------------
